@@ -45,6 +45,10 @@ func NewSession(info Info, sessionID []byte, pl *pool.Pool, auxInfo ...hash.Writ
 	if !partyIDs.Valid() {
 		return nil, errors.New("session: partyIDs invalid")
 	}
+	// the empty ID is reserved for "all parties", and would be the evaluation point 0 of the secret sharing
+	if partyIDs.Contains("") {
+		return nil, errors.New("session: partyIDs contains an empty ID")
+	}
 
 	// verify our ID is present
 	if !partyIDs.Contains(info.SelfID) {
